@@ -48,10 +48,15 @@ HDR = "From Coq Require Import List NArith.\nImport ListNotations.\nFrom Dawn Re
 UNKNOWN_PROJECT = "example.com/lib"
 
 
-def mod_label(name, faults=None):
+def mod_label(name, faults=None, r=None):
+    """the registry label of the FILE a load entry names: a module name (file <dirs[name]>/<name>.dawn of project
+    proj[name]) or "@<dir>" (package file <dir>/BUILD.dawn); by construction of the scenario, not from the label text"""
+    if name.startswith("@"):
+        return pkg_label(name[1:])
     if faults and faults.get(name, {}).get("kind") == "unknownproj":
         return "module:%s//:%s.dawn" % (UNKNOWN_PROJECT, name)
-    return "module://:%s.dawn" % name
+    r = r or {}
+    return "module:%s//%s:%s.dawn" % ((r.get("proj") or {}).get(name, ""), (r.get("dirs") or {}).get(name, ""), name)
 
 
 def pkg_label(d):
@@ -75,14 +80,14 @@ def scenario_graph(r):
     bad = set()
     faults = r.get("faults") or {}
     for n, ls in r["mods"].items():
-        l = mod_label(n, faults)
-        g[l] = [mod_label(x, faults) for x in executed_loads(ls, faults.get(n))]
+        l = mod_label(n, faults, r)
+        g[l] = [mod_label(x, faults, r) for x in executed_loads(ls, faults.get(n))]
         if n in faults:
             bad.add(l)
     roots = []
     for p in r["pkgs"]:
         l = pkg_label(p["dir"])
-        g[l] = [mod_label(x, faults) for x in executed_loads(p["loads"], p.get("fault"))]
+        g[l] = [mod_label(x, faults, r) for x in executed_loads(p["loads"], p.get("fault"))]
         if p.get("fault"):
             bad.add(l)
         roots.append(l)
@@ -115,6 +120,10 @@ def has_cycle(g, nodes):
         color[x] = 2
         return False
     return any(color.get(x, 0) == 0 and visit(x) for x in sorted(nodes))
+
+
+def faults_of(r):
+    return r.get("faults") or {}
 
 
 def expected_targets(r):
@@ -253,6 +262,13 @@ def render_case(r):
 
 def brief(r):
     return {"class": r["class"], "mods": r["mods"], "pkgs": r["pkgs"],
+            "dirs (package directory of each module file; default: the root)": r.get("dirs") or {},
+            "proj (required project a module file lives in; default: the project under test)": r.get("proj") or {},
+            "raw (label text of each load statement of a module; a package's are in pkgs[].raw; default //:<name>.dawn)":
+                r.get("raw") or {},
+            "reqs (requirements of the project under test, all cached at v1.0.0)": r.get("reqs") or {},
+            "files_executed (file -> times its first statement ran)": {k: v for k, v in (r.get("ran") or {}).items() if v > 1}
+                or "each at most once",
             "faults (files that fail by themselves, see c06Fault in the harness)": r.get("faults") or {},
             "schedule": {"jitter_seed": r["jseed"], "rendezvous": r.get("rendezvous", False),
                          "rendezvous_modules": r.get("rvmods") or [], "rendezvous_timeouts": r.get("rv_timeouts", 0)},
@@ -270,7 +286,8 @@ def run(ctx):
     sizes = SIZES_QUICK if ctx.quick() else SIZES_THOROUGH
     env = {"VERIF_OUT": out, "VERIF_SEED": str(ctx.seed), "VERIF_NRAND": str(nrand), "VERIF_REPS": str(reps),
            "VERIF_WATCHDOG_MS": "8000", "VERIF_SIZES": ",".join(map(str, sizes)), "VERIF_WIDE_MAX": "70" if ctx.quick() else "260"}
-    rc, o = ctx.go_overlay_test("", {"zz_verif_c06_load_test.go": os.path.join(HARNESS, "overlay/root/zz_verif_c06_load_test.go")},
+    rc, o = ctx.go_overlay_test("", {f: os.path.join(HARNESS, "overlay/root", f)
+                                     for f in ("zz_verif_c06_load_test.go", "zz_verif_c06_spell_test.go")},
                                 "^TestVerifC06$", env)
     if rc != 0:
         ctx.log(o[-3000:])
@@ -303,6 +320,9 @@ def run(ctx):
             if e[1] == "module.exec":
                 nexec[e[2]] = nexec.get(e[2], 0) + 1
         dup.update({l: n for l, n in nexec.items() if n > 1})
+        # the file itself reports its execution (first statement), whatever label the loader knows it by
+        ran = r.get("ran") or {}
+        dup.update({"file of %s" % mod_label(f, faults_of(r), r): n for f, n in ran.items() if n > 1})
         if dup:
             bad.append("module file executed more than once: %s" % dup)
         if not r["hang"] and not r.get("panic"):
@@ -315,6 +335,9 @@ def run(ctx):
                                % (r["targets"], r["flags"], et, ef))
                 elif set(r["loading"]) != reach:
                     bad.append("executed set %s differs from the reachable set %s" % (sorted(r["loading"]), sorted(reach)))
+                elif {mod_label(f, faults_of(r), r) for f in ran} != reach:
+                    bad.append("the files that ran %s are not the files reachable from the packages %s"
+                               % (sorted(ran), sorted(reach)))
             elif cyc and not faulty and ec != "cyclic":
                 bad.append("a load cycle is reachable from a package but Load returned %s"
                            % ("no error" if ec == "nil" else r["err"][:200]))
@@ -332,7 +355,8 @@ def run(ctx):
                 if hops[e[0]] == len(g) + 2:
                     bad.append("a chain walk made more than %d hops (unbounded walk)" % (len(g) + 1))
         key = (r["class"], json.dumps(r["mods"], sort_keys=True), json.dumps(r["pkgs"], sort_keys=True),
-               json.dumps(r.get("faults") or {}, sort_keys=True))
+               json.dumps(r.get("faults") or {}, sort_keys=True),
+               json.dumps([r.get("dirs"), r.get("proj"), r.get("raw")], sort_keys=True))
         obs = (ec, tuple(sorted(r["targets"])), tuple(sorted(r["flags"])))
         if not bad and key in by_scenario and by_scenario[key] != obs and not cyc:
             bad.append("result depends on the schedule: %s vs %s" % (by_scenario[key], obs))
